@@ -27,6 +27,7 @@ func init() {
 			ruleKeyedStores(r)
 			ruleIndexLoopDeletion(r, []string{metricPkg, enginePkg})
 			ruleBinOpPairsMatched(r)
+			ruleKeySiblings(r)
 		},
 	})
 }
